@@ -49,6 +49,40 @@ def total(name):
     return h
 
 
+def callname(e):
+    import ast
+    try:
+        return ast.unparse(e.func)
+    except Exception:
+        return "call"
+
+
+def only(e, args, kwargs, nmin, nmax=None, kw=()):
+    """argument-shape guard of a handler: an argument the model would silently ignore makes two different calls one term (unsound),
+    so every handler states the shapes it models -- between nmin and nmax positional arguments, keywords out of `kw` -- and anything
+    else is Unsupported (never dropped)"""
+    nmax = nmin if nmax is None else nmax
+    bad = sorted(k for k in kwargs if k not in kw)
+    if not (nmin <= len(args) <= nmax) or bad:
+        raise Unsupported("%s with unexpected argument (%d positional%s; the model takes %s%s)"
+                          % (callname(e), len(args), "".join(", %s=" % k for k in bad),
+                             ("%d" % nmin) if nmin == nmax else ("%d..%d" % (nmin, nmax)), "".join(", %s=" % k for k in kw)), e)
+
+
+def kwsfx(kwargs):
+    """keywords folded into the function symbol: f(x, k=v) is the term f_k(x, v)"""
+    return "".join("_" + k for k in sorted(kwargs))
+
+
+def kwvals(kwargs):
+    return [v for k, v in sorted(kwargs.items())]
+
+
+# handlers that model a starred argument whose length is unknown (f(*seq)); for every other callee ctx.dispatch refuses that shape
+STAR_OK_FUNCS = {"range"}
+STAR_OK_METHODS = {"format"}
+
+
 assumed("A-numpy-arith", "np.sum([x,y],axis=0)=ADD(x,y), np.prod([x,y],axis=0)=MUL(x,y) for scalars and SymPy operands; np.power(x,y)=POW(x,y) and raises "
                          "ValueError iff both operands are integer-kind and y<0; the 15 elementary ufuncs compute the named functions; results of +,-,*,** "
                          "on integer kinds are integer kinds")
@@ -58,6 +92,9 @@ assumed("A-sympy", "Symbol(n) equality is by name; free_symbols is the set of sy
                    "positional call binds in the order of L; str(e) is deterministic")
 assumed("A-cpython", "int()/float()/complex() on the token languages denote the literal's value (ValueError otherwise); str.format/str/repr per CPython; "
                      "dicts iterate in insertion order; copy.deepcopy returns an equal structure sharing no mutable cell; os.path.join/dirname POSIX semantics")
+assumed("A-class-hierarchy", "no object is an instance of two of str / list / tuple / dict / set / np.ndarray / RegRefTransform / sym.Expr, nor of one of them and a "
+                            "number class; int, float, complex, np.integer, np.floating, np.complexfloating are pairwise disjoint except np.floating/float and "
+                            "np.complexfloating/complex (NumPy scalars subclass the Python types); Symbol < Expr, np number classes < np.generic, bool < int")
 assumed("A-antlr-walk", "ParseTreeWalker.walk(listener, tree) calls the listener's enter/exit handlers in depth-first order, enter before and exit after the "
                         "children, left to right; its effect on the listener and the module tables is the fold of the handler contracts (lean/Walk.lean)")
 assumed("A-antlr-tree", "parse-tree accessors are pure observers of an immutable tree whose shape follows the grammar (getText, getChildren, typed child accessors, start/line/column)")
@@ -68,6 +105,7 @@ assumed("A-antlr-tree", "parse-tree accessors are pure observers of an immutable
 
 @lib("len", "A-cpython")
 def _len(ex, e, args, kwargs, p):
+    only(e, args, kwargs, 1)
     a = args[0]
     if isinstance(a, Tup):
         return [(PyC(len(a.items)), p)]
@@ -79,6 +117,7 @@ def _len(ex, e, args, kwargs, p):
 @lib("str", "A-cpython")
 def _str(ex, e, args, kwargs, p):
     from .terms import as_str_term
+    only(e, args, kwargs, 1)                    # str(bytes, encoding, errors) decodes: not modelled
     a = args[0]
     if isinstance(a, PyC) and isinstance(a.v, str):
         return [(a, p)]
@@ -87,36 +126,52 @@ def _str(ex, e, args, kwargs, p):
 
 @lib("repr", "A-cpython")
 def _repr(ex, e, args, kwargs, p):
+    only(e, args, kwargs, 1)
     return [(app("py_repr", asV(args[0])), p)]
 
 
 @lib("int", "A-cpython")
 def _int(ex, e, args, kwargs, p):
-    return partial(ex, p, e, "py_int", args[0])
+    only(e, args, kwargs, 1, 2)
+    if len(args) == 2:
+        return partial(ex, p, e, "py_int_base", args[0], args[1])        # int(text, base): a different function of two arguments
+    a = args[0]
+    if z3.is_expr(a) and z3.is_app(a) and a.decl().kind() == z3.Z3_OP_ITE and a.arg(1).eq(TRUE) and a.arg(2).eq(FALSE):
+        return [(IntV(z3.If(a.arg(0), 1, 0)), p)]                        # int(bool): 1 / 0, never raises
+    if z3.is_expr(a) and z3.is_bool(a):
+        return [(IntV(z3.If(a, 1, 0)), p)]
+    return partial(ex, p, e, "py_int", a)
 
 
 @lib("float", "A-cpython")
 def _float(ex, e, args, kwargs, p):
+    only(e, args, kwargs, 1)
     return partial(ex, p, e, "py_float", args[0])
 
 
 @lib("complex", "A-cpython")
 def _complex(ex, e, args, kwargs, p):
+    only(e, args, kwargs, 1, 2)
+    if len(args) == 2:
+        return partial(ex, p, e, "py_complex_re_im", args[0], args[1])
     return partial(ex, p, e, "py_complex", args[0])
 
 
 @lib("bool", "A-cpython")
 def _bool(ex, e, args, kwargs, p):
+    only(e, args, kwargs, 1)
     return [(tobool(args[0]), p)]
 
 
 @lib("abs", "A-cpython")
 def _abs(ex, e, args, kwargs, p):
+    only(e, args, kwargs, 1)
     return [(app("ABS", asV(args[0])), p)]
 
 
 @lib("set", "A-cpython")
 def _set(ex, e, args, kwargs, p):
+    only(e, args, kwargs, 0, 1)
     if not args:
         return [(NIL_SET, p)]
     return [(app("set_of", asV(args[0])), p)]
@@ -124,6 +179,7 @@ def _set(ex, e, args, kwargs, p):
 
 @lib("list", "A-cpython")
 def _list(ex, e, args, kwargs, p):
+    only(e, args, kwargs, 0, 1)
     if not args:
         return [(Tup([], "list"), p)]
     a = args[0]
@@ -134,6 +190,7 @@ def _list(ex, e, args, kwargs, p):
 
 @lib("tuple", "A-cpython")
 def _tuple(ex, e, args, kwargs, p):
+    only(e, args, kwargs, 0, 1)
     if not args:
         return [(Tup([], "tuple"), p)]
     a = args[0]
@@ -153,22 +210,29 @@ def _dict(ex, e, args, kwargs, p):
 
 @lib("sorted", "A-cpython")
 def _sorted(ex, e, args, kwargs, p):
+    only(e, args, kwargs, 1, kw=("key", "reverse"))       # both keywords are part of the term
     extra = [asV(v) for k, v in sorted(kwargs.items())]
     return [(app("py_sorted" + "".join("_" + k for k in sorted(kwargs)), asV(args[0]), *extra), p)]
 
 
 @lib("enumerate", "A-cpython")
 def _enumerate(ex, e, args, kwargs, p):
+    only(e, args, kwargs, 1)                    # enumerate(xs, start): not modelled (the frame engine knows py_enumerate as a view of xs)
     return [(app("py_enumerate", asV(args[0])), p)]
 
 
 @lib("zip", "A-cpython")
 def _zip(ex, e, args, kwargs, p):
-    return [(app("py_zip%d" % len(args), *[asV(a) for a in args]), p)]
+    only(e, args, kwargs, 0, 99, kw=("strict",))
+    return [(app("py_zip%d" % len(args) + kwsfx(kwargs), *[asV(a) for a in args], *[asV(v) for v in kwvals(kwargs)]), p)]
 
 
 @lib("range", "A-cpython")
 def _range(ex, e, args, kwargs, p):
+    star = kwargs.pop("__star__", None)         # positions of starred arguments of unknown length (ctx.evargs)
+    only(e, args, kwargs, 1, 3)
+    if star is not None and not (len(args) == 1 and len(e.args) == 1):
+        raise Unsupported("range with a starred argument next to others", e)
     if len(args) == 1 and not isinstance(args[0], (PyC, Tup)) and getattr(e, "args", None) and isinstance(e.args[0], ast_Starred()):
         # range(*seq): arity and element types decide failure
         return partial(ex, p, e, "py_range_star", args[0])
@@ -182,57 +246,72 @@ def ast_Starred():
 
 @lib("any", "A-cpython")
 def _any(ex, e, args, kwargs, p):
-    return [(truthy(app("py_any", asV(args[0]))), p)]
+    only(e, args, kwargs, 1)
+    q = ex.exists_over(asV(args[0]), False) if hasattr(ex, "exists_over") else None
+    return [(q if q is not None else truthy(app("py_any", asV(args[0]))), p)]
 
 
 @lib("all", "A-cpython")
 def _all(ex, e, args, kwargs, p):
-    return [(truthy(app("py_all", asV(args[0]))), p)]
+    only(e, args, kwargs, 1)
+    q = ex.exists_over(asV(args[0]), True) if hasattr(ex, "exists_over") else None
+    return [(z3.Not(q) if q is not None else truthy(app("py_all", asV(args[0]))), p)]
 
 
 @lib("type", "A-cpython")
 def _type(ex, e, args, kwargs, p):
+    only(e, args, kwargs, 1)                    # type(name, bases, dict) creates a class: not modelled
     return [(app("py_type", asV(args[0])), p)]
 
 
 @lib("map", "A-cpython")
 def _map(ex, e, args, kwargs, p):
+    only(e, args, kwargs, 2, 99)
     return [(app("py_map", *[asV(a) for a in args]), p)]
 
 
 @lib("filter", "A-cpython")
 def _filter(ex, e, args, kwargs, p):
+    only(e, args, kwargs, 2)
     return [(app("py_filter", *[asV(a) for a in args]), p)]
 
 
 @lib("reversed", "A-cpython")
 def _reversed(ex, e, args, kwargs, p):
+    only(e, args, kwargs, 1)
     return [(app("py_reversed", asV(args[0])), p)]
 
 
 @lib("sum", "A-cpython")
 def _sum(ex, e, args, kwargs, p):
+    only(e, args, kwargs, 1, 1 if kwargs else 2, kw=("start",))
+    args = list(args) + kwvals(kwargs)          # sum(xs, start=s) is sum(xs, s)
     return [(app("py_sum", *[asV(a) for a in args]), p)]
 
 
 @lib("round", "A-cpython")
 def _round(ex, e, args, kwargs, p):
+    only(e, args, kwargs, 1, 1 if kwargs else 2, kw=("ndigits",))
+    args = list(args) + kwvals(kwargs)          # round(x, ndigits=n) is round(x, n)
     return [(app("py_round", *[asV(a) for a in args]), p)]
 
 
 @lib("id", "A-cpython")
 def _id(ex, e, args, kwargs, p):
+    only(e, args, kwargs, 1)
     return [(app("py_id", asV(args[0])), p)]
 
 
 @lib("hash", "A-cpython")
 def _hash(ex, e, args, kwargs, p):
+    only(e, args, kwargs, 1)
     return [(app("py_hash", asV(args[0])), p)]
 
 
 @lib("json.dumps", "A-cpython")
 def _jsondumps(ex, e, args, kwargs, p):
-    return [(app("json_dumps", asV(args[0])), p)]
+    only(e, args, kwargs, 1, kw=tuple(kwargs))  # indent=, sort_keys=, ... change the text: folded into the term
+    return [(app("json_dumps" + kwsfx(kwargs), asV(args[0]), *[asV(v) for v in kwvals(kwargs)]), p)]
 
 
 for _n in ("round", "around", "any", "iscomplex", "isreal", "real", "imag", "iscomplexobj", "isrealobj", "isfinite", "isnan", "floor", "ceil", "trunc",
@@ -244,12 +323,14 @@ for _n in ("round", "around", "any", "iscomplex", "isreal", "real", "imag", "isc
 
 @lib("min", "A-cpython")
 def _min(ex, e, args, kwargs, p):
-    return [(app("py_min", *[asV(a) for a in args]), p)]
+    only(e, args, kwargs, 1, 99, kw=("key", "default"))
+    return [(app("py_min" + kwsfx(kwargs), *[asV(a) for a in args], *[asV(v) for v in kwvals(kwargs)]), p)]
 
 
 @lib("max", "A-cpython")
 def _max(ex, e, args, kwargs, p):
-    return [(app("py_max", *[asV(a) for a in args]), p)]
+    only(e, args, kwargs, 1, 99, kw=("key", "default"))
+    return [(app("py_max" + kwsfx(kwargs), *[asV(a) for a in args], *[asV(v) for v in kwvals(kwargs)]), p)]
 
 
 # ---------------------------------------------------------------------------------------------------------------------
@@ -257,7 +338,7 @@ def _max(ex, e, args, kwargs, p):
 
 @lib("np.sum", "A-numpy-arith")
 def _npsum(ex, e, args, kwargs, p):
-    a = args[0]
+    a = args[0] if len(args) == 1 and set(kwargs) == {"axis"} else None       # dtype=, keepdims=, out=, initial=, where=: not modelled
     if isinstance(a, Tup) and len(a.items) == 2 and isinstance(kwargs.get("axis"), PyC) and kwargs["axis"].v == 0:
         return [(app("ADD", asV(a.items[0]), asV(a.items[1])), p)]
     raise Unsupported("np.sum form", e)
@@ -265,7 +346,7 @@ def _npsum(ex, e, args, kwargs, p):
 
 @lib("np.prod", "A-numpy-arith")
 def _npprod(ex, e, args, kwargs, p):
-    a = args[0]
+    a = args[0] if len(args) == 1 and set(kwargs) == {"axis"} else None
     if isinstance(a, Tup) and len(a.items) == 2 and isinstance(kwargs.get("axis"), PyC) and kwargs["axis"].v == 0:
         return [(app("MUL", asV(a.items[0]), asV(a.items[1])), p)]
     raise Unsupported("np.prod form", e)
@@ -273,15 +354,20 @@ def _npprod(ex, e, args, kwargs, p):
 
 @lib("np.power", "A-numpy-arith")
 def _nppower(ex, e, args, kwargs, p):
+    only(e, args, kwargs, 2)                    # out=, where=, dtype=: not modelled
     return partial(ex, p, e, "POW", args[0], args[1])
 
 
 for _f in ("exp", "log", "sin", "cos", "tan", "arcsin", "arccos", "arctan", "sinh", "cosh", "tanh", "arcsinh", "arccosh", "arctanh", "sqrt"):
-    FUNCS["np." + _f] = ((lambda name: (lambda ex, e, args, kwargs, p: partial(ex, p, e, "FN_" + name, args[0])))(_f), "A-numpy-arith")
+    FUNCS["np." + _f] = ((lambda name: (lambda ex, e, args, kwargs, p: only(e, args, kwargs, 1) or partial(ex, p, e, "FN_" + name, args[0])))(_f),
+                         "A-numpy-arith")
 
 
 @lib("np.array", "A-numpy-array")
 def _nparray(ex, e, args, kwargs, p):
+    only(e, args, kwargs, 1, 1 if kwargs else 2, kw=("dtype",))        # copy=, order=, subok=, ndmin=, like=: not modelled
+    if len(args) == 2:
+        return partial(ex, p, e, "np_array_dtype", args[0], args[1])      # np.array(x, t) is np.array(x, dtype=t)
     if "dtype" in kwargs:
         return partial(ex, p, e, "np_array_dtype", args[0], kwargs["dtype"])
     return partial(ex, p, e, "np_array", args[0])
@@ -289,46 +375,56 @@ def _nparray(ex, e, args, kwargs, p):
 
 @lib("np.insert", "A-numpy-array")
 def _npinsert(ex, e, args, kwargs, p):
-    return partial(ex, p, e, "np_insert", *args)
+    only(e, args, kwargs, 3, 3 if kwargs else 4, kw=("axis",))
+    return partial(ex, p, e, "np_insert", *args, *kwvals(kwargs))         # np.insert(a, i, x, axis=k) is np.insert(a, i, x, k)
 
 
 @lib("np.ndim", "A-numpy-array")
 def _npndim(ex, e, args, kwargs, p):
+    only(e, args, kwargs, 1)
     return [(app("np_ndim", asV(args[0])), p)]
 
 
 @lib("np.ndindex", "A-numpy-array")
 def _npndindex(ex, e, args, kwargs, p):
+    only(e, args, kwargs, 0, 99)
     return [(app("np_ndindex", *[asV(a) for a in args]), p)]
 
 
 @lib("np.abs", "A-numpy-arith")
 def _npabs(ex, e, args, kwargs, p):
+    only(e, args, kwargs, 1)
     return [(app("ABS", asV(args[0])), p)]
 
 
 @lib("np.signbit", "A-numpy-arith")
 def _npsignbit(ex, e, args, kwargs, p):
+    only(e, args, kwargs, 1)
     return [(pred("np_signbit", asV(args[0])), p)]
 
 
 @lib("np.all", "A-numpy-array")
 def _npall(ex, e, args, kwargs, p):
+    only(e, args, kwargs, 1)                    # axis=, keepdims=, where=: not modelled
     return [(truthy(app("np_all", asV(args[0]))), p)]
 
 
 @lib("np.isclose", "A-numpy-arith")
 def _npisclose(ex, e, args, kwargs, p):
-    return partial(ex, p, e, "np_isclose", args[0], args[1])
+    only(e, args, kwargs, 2, 5, kw=("rtol", "atol", "equal_nan"))
+    # tolerances are part of the function: np.isclose(a, b, rtol=r) is the term np_isclose_rtol(a, b, r)
+    return partial(ex, p, e, "np_isclose" + ("%d" % len(args) if len(args) > 2 else "") + kwsfx(kwargs), *args, *kwvals(kwargs))
 
 
 @lib("np.issubdtype", "A-numpy-array")
 def _npissubdtype(ex, e, args, kwargs, p):
+    only(e, args, kwargs, 2)
     return [(pred("np_issubdtype", asV(args[0]), asV(args[1])), p)]
 
 
 @lib("np.dtype", "A-numpy-array")
 def _npdtype(ex, e, args, kwargs, p):
+    only(e, args, kwargs, 1)
     return [(app("np_dtype", asV(args[0])), p)]
 
 
@@ -337,7 +433,8 @@ def _npdtype(ex, e, args, kwargs, p):
 
 @lib("Symbol", "A-sympy")
 def _symbol(ex, e, args, kwargs, p):
-    return [(app("SYMBOL", asV(args[0])), p)]
+    only(e, args, kwargs, 1, kw=tuple(kwargs))  # Symbol("x", real=True) != Symbol("x"): assumptions are part of the term
+    return [(app("SYMBOL" + kwsfx(kwargs), asV(args[0]), *[asV(v) for v in kwvals(kwargs)]), p)]
 
 
 FUNCS["sym.Symbol"] = FUNCS["Symbol"]
@@ -345,12 +442,14 @@ FUNCS["sym.Symbol"] = FUNCS["Symbol"]
 
 @lib("sym.lambdify", "A-sympy")
 def _lambdify(ex, e, args, kwargs, p):
-    return [(app("LAMBDIFY", asV(args[0]), asV(args[1])), p)]
+    only(e, args, kwargs, 2, kw=tuple(kwargs))  # modules=, printer=, cse=, ...: a different function (no SUBST axiom applies to it)
+    return [(app("LAMBDIFY" + kwsfx(kwargs), asV(args[0]), asV(args[1]), *[asV(v) for v in kwvals(kwargs)]), p)]
 
 
 @lib("solve", "A-sympy")
 def _solve(ex, e, args, kwargs, p):
-    return partial(ex, p, e, "sym_solve", args[0], args[1])
+    only(e, args, kwargs, 2, kw=tuple(kwargs))  # flags (dict=, set=, ...) change the shape of the result: folded into the term
+    return partial(ex, p, e, "sym_solve" + kwsfx(kwargs), args[0], args[1], *kwvals(kwargs))
 
 
 # ---------------------------------------------------------------------------------------------------------------------
@@ -358,16 +457,22 @@ def _solve(ex, e, args, kwargs, p):
 
 @lib("os.path.join", "A-cpython")
 def _join(ex, e, args, kwargs, p):
-    return [(app("PATH_JOIN", asV(args[0]), asV(args[1])), p)]
+    only(e, args, kwargs, 2, 99)
+    t = asV(args[0])
+    for a in args[1:]:                          # posixpath.join is a left fold: join(a, b, c) == join(join(a, b), c)
+        t = app("PATH_JOIN", t, asV(a))
+    return [(t, p)]
 
 
 @lib("os.path.dirname", "A-cpython")
 def _dirname(ex, e, args, kwargs, p):
+    only(e, args, kwargs, 1)
     return [(app("PATH_DIRNAME", asV(args[0])), p)]
 
 
 @lib("os.getcwd", "A-cpython")
 def _getcwd(ex, e, args, kwargs, p):
+    only(e, args, kwargs, 0)
     ex.ctx.effect(ex, p, "read-process-cwd", "process:cwd", e)
     return [(app("PROCESS_CWD"), p)]
 
@@ -375,6 +480,7 @@ def _getcwd(ex, e, args, kwargs, p):
 @lib("copy.deepcopy", "A-cpython")
 def _deepcopy(ex, e, args, kwargs, p):
     # value semantics: an equal structure (axiom DEEPCOPY(x) == x); a fresh object for the frame engine
+    only(e, args, kwargs, 1, 1 if kwargs else 2, kw=("memo",))
     if len(args) > 1 or kwargs:
         # a caller-supplied memo decides which sub-objects are shared instead of copied: equal in value, but NOT fresh
         memo = asV(args[1]) if len(args) > 1 else asV(kwargs.get("memo", PyC(None)))
@@ -384,34 +490,40 @@ def _deepcopy(ex, e, args, kwargs, p):
 
 @lib("copy.copy", "A-cpython")
 def _copy(ex, e, args, kwargs, p):
+    only(e, args, kwargs, 1)
     return [(app("SHALLOWCOPY", asV(args[0])), p)]
 
 
 @lib("warnings.warn", "A-cpython")
 def _warn(ex, e, args, kwargs, p):
+    # a warning is an effect outside the properties: message, category and stacklevel are deliberately not part of any term
+    only(e, args, kwargs, 1, 4, kw=("category", "stacklevel", "source", "skip_file_prefixes"))
     ex.ctx.effect(ex, p, "warn", "process:warnings", e)
     return [(PyC(None), p)]
 
 
 for _n in ("match", "fullmatch", "search", "findall", "compile", "split", "finditer"):
-    FUNCS["re." + _n] = ((lambda name: (lambda ex, e, args, kwargs, p: [(app("re_" + name, *[asV(a) for a in args]), p)]))(_n), "A-cpython")
+    FUNCS["re." + _n] = ((lambda name: (lambda ex, e, args, kwargs, p: [(app("re_" + name + kwsfx(kwargs), *[asV(a) for a in args],
+                                                                             *[asV(v) for v in kwvals(kwargs)]), p)]))(_n), "A-cpython")
 
 
 @lib("re.escape", "A-cpython")
 def _reescape(ex, e, args, kwargs, p):
+    only(e, args, kwargs, 1)
     return [(app("re_escape", asV(args[0])), p)]
 
 
 @lib("re.sub", "A-cpython")
 def _resub(ex, e, args, kwargs, p):
-    return [(app("re_sub", *[asV(a) for a in args]), p)]
+    only(e, args, kwargs, 3, 5, kw=("count", "flags"))
+    return [(app("re_sub" + kwsfx(kwargs), *[asV(a) for a in args], *[asV(v) for v in kwvals(kwargs)]), p)]
 
 
 for _n in ("antlr4.FileStream", "antlr4.InputStream", "antlr4.CommonTokenStream", "blackbirdLexer", "blackbirdParser", "antlr4.ParseTreeWalker",
            "BlackbirdErrorListener"):
     def _mk(name):
         def h(ex, e, args, kwargs, p):
-            obj = app("NEW_" + name.replace(".", "_"), *[asV(a) for a in args])
+            obj = app("NEW_" + name.replace(".", "_") + kwsfx(kwargs), *[asV(a) for a in args], *[asV(v) for v in kwvals(kwargs)])
             return [(obj, p.assume(z3.And(obj != NONE, truthy(obj))))]       # a constructor never returns None
         return h
     FUNCS[_n] = (_mk(_n), "A-antlr-tree")
@@ -423,14 +535,18 @@ for _n in ("antlr4.FileStream", "antlr4.InputStream", "antlr4.CommonTokenStream"
 @method("format", "A-cpython")
 def _format(ex, e, obj, args, kwargs, p):
     from .terms import format_term
-    if isinstance(obj, PyC) and isinstance(obj.v, str) and not kwargs:
+    star = kwargs.pop("__star__", None)         # positions of starred arguments of unknown length (ctx.evargs)
+    if isinstance(obj, PyC) and isinstance(obj.v, str) and not kwargs and star is None:
         return [(format_term(obj.v, list(args)), p)]
-    return [(app("py_format%d" % len(args), asV(obj), *[asV(a) for a in args]), p)]
+    # keyword fields and the positions of starred sequences are part of the function symbol
+    sfx = kwsfx(kwargs) + ("" if star is None else "_star" + "_".join(str(i) for i in star.v))
+    return [(app("py_format%d" % len(args) + sfx, asV(obj), *[asV(a) for a in args], *[asV(v) for v in kwvals(kwargs)]), p)]
 
 
 @method("join", "A-cpython")
 def _strjoin(ex, e, obj, args, kwargs, p):
     from .terms import strcat, as_str_term
+    only(e, args, kwargs, 1)
     if isinstance(obj, PyC) and isinstance(obj.v, str) and isinstance(args[0], Tup):
         parts = []
         for i, it in enumerate(args[0].items):
@@ -443,62 +559,76 @@ def _strjoin(ex, e, obj, args, kwargs, p):
 
 @method("replace", "A-cpython")
 def _replace(ex, e, obj, args, kwargs, p):
+    only(e, args, kwargs, 2, 3)
+    if len(args) == 3:
+        return [(app("py_replace_count", asV(obj), *[asV(a) for a in args]), p)]
     return [(app("py_replace", asV(obj), asV(args[0]), asV(args[1])), p)]
 
 
 @method("split", "A-cpython")
 def _split(ex, e, obj, args, kwargs, p):
-    return [(app("py_split", asV(obj), *[asV(a) for a in args]), p)]
+    only(e, args, kwargs, 0, 2, kw=("sep", "maxsplit"))
+    return [(app("py_split" + kwsfx(kwargs), asV(obj), *[asV(a) for a in args], *[asV(v) for v in kwvals(kwargs)]), p)]
 
 
 @method("isdigit", "A-cpython")
 def _isdigit(ex, e, obj, args, kwargs, p):
+    only(e, args, kwargs, 0)
     return [(pred("py_isdigit", asV(obj)), p)]
 
 
 @method("lower", "A-cpython")
 def _lower(ex, e, obj, args, kwargs, p):
+    only(e, args, kwargs, 0)
     return [(app("py_lower", asV(obj)), p)]
 
 
 @method("upper", "A-cpython")
 def _upper(ex, e, obj, args, kwargs, p):
+    only(e, args, kwargs, 0)
     return [(app("py_upper", asV(obj)), p)]
 
 
 @method("startswith", "A-cpython")
 def _startswith(ex, e, obj, args, kwargs, p):
-    return [(pred("py_startswith", asV(obj), asV(args[0])), p)]
+    only(e, args, kwargs, 1, 3)                 # startswith(prefix, start, end): the bounds are arguments of a different predicate
+    return [(pred("py_startswith" + ("%d" % len(args) if len(args) > 1 else ""), asV(obj), *[asV(a) for a in args]), p)]
 
 
 @method("items", "A-cpython")
 def _items(ex, e, obj, args, kwargs, p):
+    only(e, args, kwargs, 0)
     return [(app("dict_items", asV(obj)), p)]
 
 
 @method("keys", "A-cpython")
 def _keys(ex, e, obj, args, kwargs, p):
+    only(e, args, kwargs, 0)
     return [(app("dict_keys", asV(obj)), p)]
 
 
 @method("values", "A-cpython")
 def _values(ex, e, obj, args, kwargs, p):
+    only(e, args, kwargs, 0)
     return [(app("dict_values", asV(obj)), p)]
 
 
 @method("get", "A-cpython")
 def _get(ex, e, obj, args, kwargs, p):
+    only(e, args, kwargs, 1, 2)
     d = args[1] if len(args) > 1 else PyC(None)
     return [(app("dict_get_default", asV(obj), asV(args[0]), asV(d)), p)]
 
 
 @method("copy", "A-cpython")
 def _mcopy(ex, e, obj, args, kwargs, p):
+    only(e, args, kwargs, 0)                    # ndarray.copy(order): not modelled
     return [(obj, p)]
 
 
 @method("flatten", "A-numpy-array")
 def _flatten(ex, e, obj, args, kwargs, p):
+    only(e, args, kwargs, 0, 0 if kwargs else 1, kw=("order",))
     if not args and not kwargs:
         return [(app("FLAT_ROWMAJOR", asV(obj)), p)]          # ndarray.flatten() is row-major ('C') by default (A-numpy-array)
     return [(app("np_flatten" + str(len(args)), asV(obj), *[asV(a) for a in args], *[asV(v) for k, v in sorted(kwargs.items())]), p)]
@@ -506,45 +636,63 @@ def _flatten(ex, e, obj, args, kwargs, p):
 
 @method("reshape", "A-numpy-array")
 def _reshape(ex, e, obj, args, kwargs, p):
-    return partial(ex, p, e, "np_reshape%d" % len(args), obj, *args)
+    only(e, args, kwargs, 1, 99, kw=("order", "copy"))
+    return partial(ex, p, e, "np_reshape%d" % len(args) + kwsfx(kwargs), obj, *args, *kwvals(kwargs))
 
 
 @method("astype", "A-numpy-array")
 def _astype(ex, e, obj, args, kwargs, p):
+    only(e, args, kwargs, 1)                    # order=, casting=, copy=: not modelled (copy=False may return the receiver itself)
     return partial(ex, p, e, "np_astype", obj, args[0])
 
 
 @method("item", "A-numpy-array")
 def _item(ex, e, obj, args, kwargs, p):
-    return [(app("np_item", asV(obj)), p)]
+    only(e, args, kwargs, 0, 99)
+    return [(app("np_item" + ("%d" % len(args) if args else ""), asV(obj), *[asV(a) for a in args]), p)]       # a.item(i, j): the index is an argument
 
 
 @method("tolist", "A-numpy-array")
 def _tolist(ex, e, obj, args, kwargs, p):
+    only(e, args, kwargs, 0)
     return [(app("np_tolist", asV(obj)), p)]
 
 
 @method("_asdict", "A-cpython")
 def _asdict(ex, e, obj, args, kwargs, p):
+    only(e, args, kwargs, 0)
     return [(app("nt_asdict", asV(obj)), p)]
 
 
 @lib("_BlackbirdExprPrinter", "A-sympy")
 def _printer(ex, e, args, kwargs, p):
+    only(e, args, kwargs, 0)                    # printer settings would change doprint: not modelled
     return [(app("NEW_BlackbirdExprPrinter"), p)]
 
 
 @method("doprint", "A-sympy")
 def _doprint(ex, e, obj, args, kwargs, p):
     # StrPrinter.doprint with the two overrides of program._BlackbirdExprPrinter: trusted (cross-checked by the roundtrip witnesses)
+    only(e, args, kwargs, 1)
     return [(app("EXPR_TEXT", asV(args[0])), p)]
+
+
+@lib("super", "A-cpython")
+def _super(ex, e, args, kwargs, p):
+    only(e, args, kwargs, 0)                    # the zero-argument form inside a method: the next class after the method's own in type(self)'s MRO
+    if "self" not in p.env:
+        raise Unsupported("super() outside a method", e)
+    return [(app("SUPER", asV(p.env["self"])), p)]
 
 
 @lib("getattr", "A-cpython")
 def _getattr(ex, e, args, kwargs, p):
+    only(e, args, kwargs, 2, 3)
     if isinstance(args[1], PyC) and isinstance(args[1].v, str):
-        d = asV(args[2]) if len(args) > 2 else NONE
-        return [(app("py_getattr_" + args[1].v, asV(args[0]), d), p)]
+        if len(args) == 2:
+            # getattr(o, "n") raises AttributeError where getattr(o, "n", None) yields None: not the same call
+            return partial(ex, p, e, "py_getattr2_" + args[1].v, args[0])
+        return [(app("py_getattr_" + args[1].v, asV(args[0]), asV(args[2])), p)]
     raise Unsupported("getattr with a computed name", e)
 
 
@@ -555,27 +703,34 @@ def _command(ex, e, args, kwargs, p):
 
 @lib("nx.DiGraph", "A-networkx")
 def _nxdigraph(ex, e, args, kwargs, p):
-    return [(app("NEW_nx_DiGraph", *[asV(a) for a in args]), p)]
+    only(e, args, kwargs, 0, 1, kw=tuple(kwargs))        # DiGraph(data, **graph_attributes): attributes are part of the term
+    return [(app("NEW_nx_DiGraph" + kwsfx(kwargs), *[asV(a) for a in args], *[asV(v) for v in kwvals(kwargs)]), p)]
 
 
 @lib("isomorphism.DiGraphMatcher", "A-networkx")
 def _matcher(ex, e, args, kwargs, p):
-    return [(app("NEW_DiGraphMatcher", *[asV(a) for a in args]), p)]
+    only(e, args, kwargs, 2, 4, kw=("node_match", "edge_match"))
+    return [(app("NEW_DiGraphMatcher" + kwsfx(kwargs), *[asV(a) for a in args], *[asV(v) for v in kwvals(kwargs)]), p)]
 
 
 @method("is_isomorphic", "A-networkx")
 def _isiso(ex, e, obj, args, kwargs, p):
+    only(e, args, kwargs, 0)
     return [(pred("nx_is_isomorphic", asV(obj)), p)]
 
 
 @method("nodes", "A-networkx")
 def _nodes(ex, e, obj, args, kwargs, p):
-    return [(app("nx_nodes", asV(obj)), p)]
+    only(e, args, kwargs, 0, 2, kw=("data", "default"))  # G.nodes(data=True) yields pairs, G.nodes() names
+    sfx = ("%d" % len(args) if args else "") + kwsfx(kwargs)
+    return [(app("nx_nodes" + sfx, asV(obj), *[asV(a) for a in args], *[asV(v) for v in kwvals(kwargs)]), p)]
 
 
 @method("data", "A-networkx")
 def _data(ex, e, obj, args, kwargs, p):
-    return [(app("nx_data", asV(obj)), p)]
+    only(e, args, kwargs, 0, 2, kw=("data", "default"))  # NodeView.data("attr") yields one attribute, .data() the whole dict
+    sfx = ("%d" % len(args) if args else "") + kwsfx(kwargs)
+    return [(app("nx_data" + sfx, asV(obj), *[asV(a) for a in args], *[asV(v) for v in kwvals(kwargs)]), p)]
 
 
 assumed("A-networkx", "DiGraph is a set of nodes/edges with attribute dicts; add_node/add_edge insert; DiGraphMatcher(G1,G2,nm).is_isomorphic() iff a node "
@@ -612,4 +767,28 @@ def axioms():
     A(FA([x], app("SHALLOWCOPY", x) == x, app("SHALLOWCOPY", x)))
     # x ** y for integer kinds with y < 0, computed in floats, is the property-level value POWF(x, y)
     A(FA([x, y], z3.Implies(z3.And(intk(x), intk(y), pred("is_negative", y)), app("POW", pf, y) == app("POWF", x, y)), app("POW", pf, y)))
+    # class hierarchy of the value kinds (A-class-hierarchy; sampled against the real classes by replay/fam_axioms "class-hierarchy"):
+    # groups of classes no object of which belongs to two, and the subclass facts the code relies on
+    for a, b in DISJOINT_CLASSES:
+        pa, pb = pred("isinst_" + a, x), pred("isinst_" + b, x)
+        A(FA([x], z3.Not(z3.And(pa, pb)), [pa, pb]))
+    # dtype kinds: no dtype is a sub-dtype of two of integer / floating / complexfloating (sampled: "class-hierarchy")
+    kinds = ["np.integer", "np.floating", "np.complexfloating"]
+    for i, a in enumerate(kinds):
+        for b in kinds[i + 1:]:
+            pa, pb = pred("np_issubdtype", x, asV(ClassRef(a))), pred("np_issubdtype", x, asV(ClassRef(b)))
+            A(FA([x], z3.Not(z3.And(pa, pb)), [pa, pb]))
+    for sub, sup in SUBCLASSES:
+        A(FA([x], z3.Implies(pred("isinst_" + sub, x), pred("isinst_" + sup, x)), pred("isinst_" + sub, x)))
     return ax
+
+
+_CONTAINERS = ["str", "list", "tuple", "dict", "set", "np.ndarray", "RegRefTransform", "sym.Expr"]
+_NUMBERS = ["int", "float", "complex", "np.integer", "np.floating", "np.complexfloating"]
+# np.float64 IS a float and np.complex128 IS a complex (NumPy subclasses the Python types); bool is an int; np.str_ is a str and an np.generic
+_NUMBER_OVERLAPS = {("float", "np.floating"), ("complex", "np.complexfloating")}
+DISJOINT_CLASSES = [(a, b) for i, a in enumerate(_CONTAINERS) for b in _CONTAINERS[i + 1:]] + \
+                   [(a, b) for a in _CONTAINERS for b in _NUMBERS] + \
+                   [(a, b) for i, a in enumerate(_NUMBERS) for b in _NUMBERS[i + 1:] if (a, b) not in _NUMBER_OVERLAPS] + \
+                   [(a, "np.generic") for a in ("list", "tuple", "dict", "set", "np.ndarray", "RegRefTransform", "sym.Expr", "int")]
+SUBCLASSES = [("sym.Symbol", "sym.Expr"), ("np.integer", "np.generic"), ("np.floating", "np.generic"), ("np.complexfloating", "np.generic"), ("bool", "int")]
